@@ -18,9 +18,11 @@ def octet_from_bits(msb_first):
 
 
 class SBytes:
-    __slots__ = ("o",)
+    __slots__ = ("o", "_ser")
 
     def __init__(self, octets):
+        from sxl.bits import next_serial
+        self._ser = next_serial()
         self.o = [x if isinstance(x, int) else (x.norm() if isinstance(x, SInt) else SInt.of(x)) for x in octets]
 
     def __len__(self):
